@@ -29,6 +29,8 @@ def configs(tier):
         for sched in (False, True):
             out.append({"part": "fit", "nets": nets, "bases": len(nets) == 2, "scheduler": sched, "data": "tensor"})
     out.append({"generic": "every shape"})
+    out.append({"independence": "complex"})
+    out.append({"independence": "mixed"})
     out.append({"part": "second-fit", "nets": ["rbm_am"], "bases": False, "scheduler": True, "data": "tensor"})
     return out
 
@@ -65,6 +67,11 @@ def _second_fit(ctx, cfg):
 
 
 def run_config(ctx, cfg):
+    if cfg.get("independence"):
+        # the amplitude and the phase network are independent objects on every construction route (also module=): what one
+        # network holds never follows the other
+        from lemmas import C20
+        return C20._module(ctx, {"kind": cfg["independence"]})
     if cfg.get("generic"):
         from contracts import gsets
         return gsets.run(ctx, "C06")
@@ -205,6 +212,9 @@ def _vector_to_grads(ctx, cfg):
 
 
 def replay(o):
+    if o["cfg"].get("independence"):
+        from drivers import C20 as D20
+        return D20.replay({"part": "module", "kind": o["cfg"]["independence"]})
     if o["cfg"].get("generic"):
         from contracts import gsets
         return gsets.replay("C06", o)
